@@ -47,7 +47,7 @@ func (c16) New() interface{} { return &C16Script{} }
 func (c16) Info() core.Info {
 	return core.Info{
 		Runs: map[string]int{"quick": 3000000, "thorough": 300000000},
-		Rule: "Each run is one scripted byte stream (garbage built from a menu of false sync bytes: AFC=00, reserved PID 4..15, runs of 0x47, headers cut by end of stream; then 0..3 packets and a tail) read by packet.Sync through a real bufio.Reader of scripted size or a no-read-ahead PeekScanner, over a SimReader whose every Read outcome (full/short/one byte/zero/data+EOF/transient or hard error) is scripted; plus a complete sweep of false-sync kind x bufio size 16..64 x header position 0..80 under one-byte reads, of every header whose three bytes after the sync byte are printable ASCII (857 375 words) and, in the thorough tier, of all 2^24 headers at the front of a stream. Garbage may end on a short context (start code, CR LF, stuffing) right before the header; 1 in 6 valid headers is printable ASCII. Non-trivial = at least one reach probe fired (false sync skipped, header straddling a refill, sync byte in the last 3 bytes, not-found, reader fault fired).",
+		Rule: "Each run is one scripted byte stream (garbage built from a menu of false sync bytes: AFC=00, reserved PID 4..15, runs of 0x47, headers cut by end of stream; then 0..3 packets and a tail) read by packet.Sync through a real bufio.Reader of scripted size or a no-read-ahead PeekScanner, over a SimReader whose every Read outcome (full/short/one byte/zero/data+EOF/transient or hard error) is scripted; plus a complete sweep of false-sync kind x bufio size 16..64 x header position 0..80 under one-byte reads, of every header whose three bytes after the sync byte are printable ASCII (857 375 words) and, in the thorough tier, of all 2^24 headers at the front of a stream. Garbage may end on a short context (start code, CR LF, stuffing) right before the header; 1 in 6 valid headers is printable ASCII. Non-trivial = at least one reach probe fired (false sync skipped, header straddling a refill, sync byte in the last 3 bytes, not-found, reader fault fired). Added in waves 19-22: the no-read-ahead scanner fails one scripted ReadByte transiently and overwrites every peeked slice at the next read call; the source may stall for 100 empty reads in a row (where bufio gives up) and then carry on.",
 		Real: []string{"packet.Sync", "packet.IsSynced", "bufio.Reader (stdlib)", "io.ReadFull/io.ReadAll (stdlib)"},
 		Stub: []string{"SimReader (scripted io.Reader)", "exactScanner (harness PeekScanner without read-ahead)", "stream producer"},
 		Assumptions: []string{
